@@ -166,6 +166,22 @@ func TestCheck(t *testing.T) {
 					}
 				}
 				run.Seen("operation_classes", fmt.Sprintf("%s/%s", stamp, cls))
+			case choice < 95 && len(ls) > 1:
+				// an announcement and operations in ONE request: the request is refused as a
+				// whole - the election it carries must not have been run (the primary stays)
+				actor = ls[r.Intn(len(ls))]
+				if !actor.Negotiated {
+					continue
+				}
+				id := nextID(r, w)
+				specs := g.History(1 + r.Intn(2))
+				req := &spb.ModifyRequest{ElectionId: id}
+				for _, sp := range specs {
+					sp.Op.ElectionId = id
+					req.Operation = append(req.Operation, sp.Op)
+				}
+				probs = append(probs, w.SendMulti(actor, req)...)
+				run.Count("requests_combining_an_announcement_with_operations", 1)
 			default:
 				actor = ls[r.Intn(len(ls))]
 				probs = append(probs, w.Disconnect(actor, []string{"close", "cancel", "abort"}[r.Intn(3)])...)
